@@ -39,6 +39,28 @@ fn history<S: UnwindContextStorage<usize>>(pool: &[(CfiCase, BuiltFrame)], fresh
     Ok(())
 }
 
+/// Address lookups on one context: the same address asked of one FDE after another (FDEs of different modules often
+/// cover the same unrelocated addresses), with row iterations in between; each answer must be the fresh-context one.
+fn lookup_history<S: UnwindContextStorage<usize>>(pool: &[(CfiCase, BuiltFrame)], mk: &dyn Fn() -> Box<UnwindContext<usize, S>>, ch_addrs: &[u64], what: &str) -> R {
+    for &addr in ch_addrs {
+        let fresh: Vec<String> = pool.iter().map(|(case, built)| c06::lookup_gimli(case, built, &mut mk(), addr)).collect::<R<Vec<_>>>()?;
+        let mut ctx = mk();
+        for round in 0..2 {
+            for (k, (case, built)) in pool.iter().enumerate() {
+                let got = c06::lookup_gimli(case, built, &mut ctx, addr)?;
+                if got != fresh[k] {
+                    fail!(format!("c20/context-lookup/{}", what), "address {:#x}, round {}: FDE #{} on the reused context gives {} but on a fresh context {}", addr, round, k, got, fresh[k]);
+                }
+                if round == 1 {
+                    // a partial row iteration of the same FDE in between
+                    let _ = c06::run_gimli(case, built, &mut ctx, Some(1))?;
+                }
+            }
+        }
+    }
+    Ok(())
+}
+
 fn fresh_runs<S: UnwindContextStorage<usize>>(pool: &[(CfiCase, BuiltFrame)], mk: &dyn Fn() -> Box<UnwindContext<usize, S>>) -> R<Vec<Vec<GRun>>> {
     let mut out = Vec::new();
     for (case, built) in pool {
@@ -99,6 +121,17 @@ fn check_context(ch: &mut Choices, cx: &mut Ctx) -> R {
         let n = 3 + ch.below(5);
         hists.push((0..n).map(|_| (ch.below(npool), ch.below(3))).collect());
     }
+    // addresses to look up: the start of each FDE, a little inside, and the last covered address
+    let mut addrs: Vec<u64> = Vec::new();
+    for (case, _) in &pool {
+        let m = crate::enc::mask(case.cie.address_size);
+        let start = case.fde.initial_raw & m;
+        addrs.push(start);
+        addrs.push(start.wrapping_add(ch.below(0x20) as u64) & m);
+    }
+    addrs.sort();
+    addrs.dedup();
+    addrs.truncate(6);
     let storage = ch.below(5);
     macro_rules! go {
         ($S:ty, $name:expr) => {{
@@ -112,6 +145,7 @@ fn check_context(ch: &mut Choices, cx: &mut Ctx) -> R {
                 let mut ctx = mk();
                 history::<$S>(&pool, &fresh, h, &mut ctx, $name)?;
             }
+            lookup_history::<$S>(&pool, &mk, &addrs, $name)?;
         }};
     }
     match storage {
@@ -130,6 +164,7 @@ fn check_context(ch: &mut Choices, cx: &mut Ctx) -> R {
                 let mut ctx = mk();
                 history(&pool, &fresh, h, &mut ctx, "heap")?;
             }
+            lookup_history(&pool, &mk, &addrs, "heap")?;
         }
     }
     Ok(())
@@ -180,10 +215,18 @@ fn clone_check<I: Clone>(make: &dyn Fn() -> Option<I>, step: &dyn Fn(&mut I) -> 
             step(&mut a);
         }
         let mut c = a.clone();
+        // the same through `clone_from` into an iterator that has been somewhere else before
+        let Some(mut d) = make() else { return Ok(()) };
+        for _ in 0..(k + 3) % (baseline.len() + 1) {
+            step(&mut d);
+        }
+        d.clone_from(&a);
         let ahead = step(&mut a);
         for (j, want) in baseline.iter().enumerate().skip(k) {
             let got = step(&mut c);
             ensure_eq!(got.as_ref(), Some(want), format!("c20/clone/{}", what), "clone taken after {} items, item #{}", k, j);
+            let got = step(&mut d);
+            ensure_eq!(got.as_ref(), Some(want), format!("c20/clone_from/{}", what), "clone_from (into a used iterator) taken after {} items, item #{}", k, j);
             if want.starts_with("error") {
                 break;
             }
@@ -367,6 +410,49 @@ fn check_entries(ch: &mut Choices, cx: &mut Ctx) -> R {
             }
         }
     }
+    // ---- (b') an attribute vector reused across `read_abbreviation` + `read_attributes` (documented to clear it), and
+    // an entry overwritten by `clone_from`
+    {
+        let mut shared_attrs: Vec<gimli::Attribute<Rdr>> = Vec::new();
+        let mut copy = gimli::DebuggingInformationEntry::null();
+        for (ui, h) in headers.iter().enumerate() {
+            let Ok(unit) = dwarf.unit(*h) else { continue };
+            let Ok(mut a) = unit.entries_raw(None) else { continue };
+            let Ok(mut b) = unit.entries_raw(None) else { continue };
+            let Ok(mut c) = unit.entries_raw(None) else { continue };
+            let mut n = 0;
+            while !a.is_empty() {
+                let ra = a.read_abbreviation().map(|o| o.map(|ab| ab.attributes().to_vec()));
+                let rb = b.read_abbreviation().map(|o| o.map(|ab| ab.attributes().to_vec()));
+                let show = |v: &Vec<gimli::Attribute<Rdr>>| v.iter().map(|x| format!("{:#x}:{:#x}={}", x.name().0, x.form().0, canon_av(&x.raw_value()))).collect::<Vec<_>>();
+                match (ra, rb) {
+                    (Ok(Some(sa)), Ok(Some(sb))) => {
+                        let mut fresh: Vec<gimli::Attribute<Rdr>> = Vec::new();
+                        let x = a.read_attributes(&sa, &mut shared_attrs);
+                        let y = b.read_attributes(&sb, &mut fresh);
+                        ensure_eq!(x.is_ok(), y.is_ok(), "c20/attribute-vector/outcome-differs", "unit {} entry #{}", ui, n);
+                        if x.is_err() {
+                            break;
+                        }
+                        ensure_eq!(show(&shared_attrs), show(&fresh), "c20/attribute-vector/differs", "unit {} entry #{}: reused vector vs fresh vector", ui, n);
+                    }
+                    (Ok(None), Ok(None)) => {}
+                    (Err(_), Err(_)) => break,
+                    (x, y) => fail!("c20/attribute-vector/outcome-differs", "unit {} entry #{}: {:?} vs {:?}", ui, n, x.map(|o| o.is_some()), y.map(|o| o.is_some())),
+                }
+                // an entry copied over whatever the copy held before
+                let mut e = gimli::DebuggingInformationEntry::null();
+                if c.read_entry(&mut e).is_ok() {
+                    copy.clone_from(&e);
+                    ensure_eq!(entry_str(&copy), entry_str(&e), "c20/entry-clone_from/differs", "unit {} entry #{}", ui, n);
+                }
+                n += 1;
+                if n > 10_000 {
+                    break;
+                }
+            }
+        }
+    }
     // ---- (c) re-rooting a tree between partial traversals
     for (ui, h) in headers.iter().enumerate() {
         let Ok(unit) = dwarf.unit(*h) else { continue };
@@ -458,11 +544,28 @@ fn check_entries(ch: &mut Choices, cx: &mut Ctx) -> R {
                 step_dfs(&mut c);
             }
             let mut c2 = c.clone();
+            // the same through `clone_from` into a cursor that stands somewhere else (another entry, another depth)
+            let mut c3 = unit.entries();
+            for _ in 0..(k + 2) % (baseline.len() + 1) {
+                step_dfs(&mut c3);
+            }
+            c3.clone_from(&c);
+            ensure_eq!(c3.current().map(entry_str), c.current().map(entry_str), "c20/clone_from/cursor-current", "unit {} at {}", ui, k);
+            // next_sibling from the copy = next_sibling from a plain clone
+            {
+                let mut s2 = c.clone();
+                let mut s3 = c3.clone();
+                let a = s2.next_sibling().map(|o| o.map(entry_str)).map_err(|e| format!("{:?}", e));
+                let b = s3.next_sibling().map(|o| o.map(entry_str)).map_err(|e| format!("{:?}", e));
+                ensure_eq!(b, a, "c20/clone_from/cursor-next_sibling", "unit {} at {}", ui, k);
+            }
             // advance the original further before the clone moves
             let ahead: Vec<Option<String>> = (0..2).map(|_| step_dfs(&mut c)).collect();
             for (j, want) in baseline.iter().enumerate().skip(k) {
                 let got = step_dfs(&mut c2);
                 ensure_eq!(got.as_ref(), Some(want), "c20/clone/cursor", "unit {} clone taken after {} entries, entry #{}", ui, k, j);
+                let got = step_dfs(&mut c3);
+                ensure_eq!(got.as_ref(), Some(want), "c20/clone_from/cursor", "unit {} clone_from taken after {} entries, entry #{}", ui, k, j);
                 if want.starts_with("error") {
                     break;
                 }
@@ -632,16 +735,29 @@ fn check_line_state(ch: &mut Choices, cx: &mut Ctx) -> R {
         return Ok(());
     };
     let show = |r: &gimli::LineRow| format!("{:#x}.{} f{} l{:?} c{:?} s{} bb{} end{} pe{} eb{} isa{} d{}", r.address(), r.op_index(), r.file_index(), r.line(), r.column(), r.is_stmt(), r.basic_block(), r.end_sequence(), r.prologue_end(), r.epilogue_begin(), r.isa(), r.discriminator());
+    // the file entry a row names, through the header handed out with the row (a file a program defines itself is in
+    // the table from its DW_LNE_define_file on; resumed sequences see the completed table)
+    fn file_of<'a>(hdr: &gimli::LineProgramHeader<Rdr<'a>>, r: &gimli::LineRow) -> Option<String> {
+        r.file(hdr).map(|f| match f.path_name() {
+            gimli::AttributeValue::String(s) => format!("{:02x?} dir {}", s.slice(), f.directory_index()),
+            other => format!("{:?} dir {}", other, f.directory_index()),
+        })
+    }
     // straight run, grouped by sequence
     let mut groups: Vec<Vec<String>> = vec![Vec::new()];
+    let mut group_files: Vec<Vec<Option<String>>> = vec![Vec::new()];
     let mut all: Vec<String> = Vec::new();
     {
         let mut rows = program.clone().rows();
         loop {
             match rows.next_row() {
-                Ok(Some((_, r))) => {
+                Ok(Some((hdr, r))) => {
                     let s = show(r);
                     all.push(s.clone());
+                    group_files.last_mut().unwrap().push(file_of(hdr, r));
+                    if r.end_sequence() {
+                        group_files.push(Vec::new());
+                    }
                     groups.last_mut().unwrap().push(s);
                     if r.end_sequence() {
                         groups.push(Vec::new());
@@ -659,6 +775,7 @@ fn check_line_state(ch: &mut Choices, cx: &mut Ctx) -> R {
         }
     }
     groups.retain(|g| !g.is_empty());
+    group_files.retain(|g| !g.is_empty());
     // clones taken at every row boundary
     for k in 0..=all.len().min(24) {
         let mut rows = program.clone().rows();
@@ -685,9 +802,13 @@ fn check_line_state(ch: &mut Choices, cx: &mut Ctx) -> R {
         for s in seqs.iter().rev() {
             let mut rr = complete.resume_from(s);
             let mut got = Vec::new();
+            let mut got_files: Vec<Option<String>> = Vec::new();
             loop {
                 match rr.next_row() {
-                    Ok(Some((_, r))) => got.push(show(r)),
+                    Ok(Some((hdr, r))) => {
+                        got_files.push(file_of(hdr, r));
+                        got.push(show(r))
+                    }
                     Ok(None) => break,
                     Err(e) => fail!("c20/line/resume-error", "{:?}", e),
                 }
@@ -696,6 +817,16 @@ fn check_line_state(ch: &mut Choices, cx: &mut Ctx) -> R {
                 }
             }
             ensure!(groups.iter().any(|g| *g == got), "c20/line/resume-differs", "round {}: the sequence [{:#x},{:#x}) resumed on its own gives {:?}, which is not a sequence of the straight run {:?}", round, s.start, s.end, got, groups);
+            // a row that named an existing file entry in the straight run names the same entry when resumed
+            if let Some(gi) = groups.iter().position(|g| *g == got) {
+                if groups.iter().filter(|g| **g == got).count() == 1 {
+                    for (k, (want, have)) in group_files[gi].iter().zip(got_files.iter()).enumerate() {
+                        if want.is_some() {
+                            ensure_eq!(have, want, "c20/line/resume-file-entry", "sequence [{:#x},{:#x}) row #{}", s.start, s.end, k);
+                        }
+                    }
+                }
+            }
         }
     }
     if groups.len() >= 2 {
